@@ -115,7 +115,8 @@ def run_append(template, compress, kind, fault_at=None, fault_mode='error',
                     exc = 'UNEXPECTED:%s:%s' % (type(e).__name__, e)
         after = warcharn.collect(wd)
         ops = [dict(o, path=os.path.basename(o['path'])) for o in fs.ops]
-        return dict(before=before, after=after, ops=ops, exc=exc, fired=fs.fired, wd=wd)
+        return dict(before=before, after=after, ops=ops, exc=exc, fired=fs.fired, wd=wd,
+                    nfired=getattr(fs, 'nfired', 0))
     finally:
         warcharn.teardown_logging()
         warcharn.cleanup(wd)
@@ -262,6 +263,32 @@ def run_job(job, cap=5):
                                  % (where, opd['op'], opd['path'], vv),
                                  'io+kill:' + vv.split('(')[0][:40], fault_at=i, mode=mode,
                                  kill_after=j)
+                # (a'') a second I/O error in the error handling that the first one set off:
+                # the archive can no longer be guaranteed, but then the journal has to stay
+                # (valid archive, or journal naming the pre-append length - the crash clause)
+                if r['fired'] and mode == 'error' and (job['tier'] != 'quick' or
+                                                       job['nprev'] <= 2):
+                    for j in range(i + 1, len(r['ops'])):
+                        r2 = run_append(template, compress, kind, [i, j], 'error',
+                                        scenario=scen)
+                        if r2.get('nfired', 0) < 2:
+                            continue
+                        res['evaluations'] += 1
+                        res['extra']['double_faults'] = res['extra'].get('double_faults', 0) + 1
+                        res['states'].add(h64((tag, 'io+io', i, j)))
+                        if r2['exc'] and r2['exc'].startswith('UNEXPECTED'):
+                            viol('two I/O errors (ops %d and %d) surfaced as %s' % (
+                                i, j, r2['exc']), 'io+io-unexpected', fault_at=[i, j],
+                                mode='error')
+                            continue
+                        vv = check_crash_state(r2['after'], len(r2['before'].get(an, b'')),
+                                               compress)
+                        if vv:
+                            opd = r2['ops'][j] if j < len(r2['ops']) else {'op': '?', 'path': ''}
+                            viol('I/O error at %s and again at the following %s of %s: %s'
+                                 % (where, opd['op'], opd['path'], vv),
+                                 'io+io:' + vv.split('(')[0][:40], fault_at=[i, j],
+                                 mode='error')
                 if r['exc'] and r['exc'].startswith('UNEXPECTED'):
                     viol('I/O error at %s surfaced as %s' % (where, r['exc']),
                          'io-unexpected-exception:' + op['op'], fault_at=i, mode=mode)
@@ -358,7 +385,9 @@ def describe(tier):
              'records (plus the constructor\'s first warcinfo append), plain and gzip; for '
              'every operation index i of the append\'s log: OSError at i (and a short write '
              'followed by OSError for writes); for every i and every torn prefix of a write: '
-             'the directory rebuilt from the log prefix is checked.  distinct = distinct '
+             'the directory rebuilt from the log prefix is checked; an I/O error followed by '
+             'a kill at every later operation, and by a second I/O error at every later '
+             'operation (then the journal must survive).  distinct = distinct '
              '(scenario, fault kind, operation index, torn length) fault points',
         bounds=dict(prev_records='1,2' if tier == 'quick' else '1,2,4,8',
                     record_sizes='13 B, 20 KB' if tier == 'quick' else '13 B, 9 KB, 20 KB, 70 KB',
